@@ -376,7 +376,10 @@ def native_build(o, unit, mode, extra_defs=()):
     hp = os.path.join(VERIF, o.harness)
     common = ['-O1', '-w', '-I', ENGINE, '-I', os.path.dirname(hp), '-I', unit.dir, '-fno-strict-aliasing'] + defs
     if mode == 'trans':
-        r = sh(['gcc', '-std=gnu11'] + common + ['-DNATIVE_TRANS', '-DOUTC="%s"' % unit.outc, hp, '-lm', '-Wl,--unresolved-symbols=ignore-all', '-no-pie', '-o', exe])
+        # compiled as C, linked with the C++ driver: libstdc++ externals the generated C calls (iostream diagnostics) resolve to the real library
+        r = sh(['gcc', '-std=gnu11'] + common + ['-DNATIVE_TRANS', '-DOUTC="%s"' % unit.outc, '-c', hp, '-o', exe + '.o'])
+        if r.returncode == 0:
+            r = sh(['g++', exe + '.o', '-lm', '-Wl,--unresolved-symbols=ignore-all', '-no-pie', '-o', exe])
     else:
         objs = unit.native_objs()
         ho = exe + '.o'
